@@ -39,7 +39,17 @@ def recipe(field_indexes, box_array):
 '''
 REC4_FORMS = [("above", "a > 2", lambda a: (a > 2).astype(float)),
               ("bin", "np.digitize(a, [1.5, 3.5, 6.5])", lambda a: np.digitize(a, [1.5, 3.5, 6.5]).astype(float)),
-              ("half", "(a / 2).astype(np.float32)", lambda a: (a / 2).astype(np.float32).astype(float))]
+              ("half", "(a / 2).astype(np.float32)", lambda a: (a / 2).astype(np.float32).astype(float)),
+              # a ratio whose denominator vanishes in at least one cell of every box: +inf (and -inf) are data like any other
+              ("ratio", "np.divide(np.sign(a - 0.5), a - a[0, 0, 0])", lambda a: _ratio(a))]
+
+
+def _ratio(a):
+    with np.errstate(divide="ignore", invalid="ignore"):
+        return np.divide(np.sign(a - 0.5), a - a[0, 0, 0])
+
+
+_REC4_N = 4
 REC5 = '''
 import numpy as np
 def recipe(field_indexes, box_array):
@@ -293,7 +303,7 @@ def run(ctx, rep, model=True):
             spec["subcycle"] = True; spec["step"] = 7
         names = list(dedup_names(spec["fields"]))
         kepts = [None, names[-1], " ".join(names[::-1]), f"nope {names[0]}", " ".join(names[1:])]
-        for j, recipe in enumerate(["rec1", "rec2", "callable", f"rec4{i % 3}", "rec5"]):
+        for j, recipe in enumerate(["rec1", "rec2", "callable", f"rec4{i % 4}", "rec5"]):
             kept = kepts[(i + j) % len(kepts)]
             if recipe.startswith("rec4") and not kept:
                 kept = names[-1]
